@@ -40,9 +40,13 @@ func renderArgv(c *Chooser, flags []flagSpec, pos []string) []string {
 			}
 		} else {
 			if c.Chance(1, 8) {
-				argv = append(argv, dash+f.name+"=true")
+				argv = append(argv, dash+f.name+"="+[]string{"true", "1", "t", "T", "TRUE", "True"}[c.Int(6)])
 			} else {
 				argv = append(argv, dash+f.name)
+			}
+			if c.Chance(1, 30) {
+				// given twice, first switched off: the last one wins
+				argv = append([]string{"-" + f.name + "=false"}, argv...)
 			}
 		}
 	}
@@ -225,6 +229,25 @@ func genSession14(c *Chooser) Session {
 	an, bn := "a.json", "b.json"
 	if iv.yaml {
 		an, bn = "a.yaml", "b.yaml"
+	}
+	if c.Chance(1, 6) {
+		// what a file is called says nothing about what is in it
+		names := [][2]string{{"a", "b"}, {"a.yml", "b.yml"}, {"a.yaml", "b.json"}, {"a.txt", "b.txt"}, {"old file.json", "new file.json"}, {"ä.json", "ö.json"}, {"sub/a.json", "sub/b.json"}, {"a.json.bak", "b.JSON"}}
+		nm := names[c.Int(len(names))]
+		an, bn = nm[0], nm[1]
+		if strings.HasPrefix(an, "sub/") {
+			s.Dirs = append(s.Dirs, "sub")
+		}
+	}
+	if c.Chance(1, 4) {
+		// the environment is not an input
+		env := [][2]string{{"NO_COLOR", "1"}, {"TERM", "xterm-256color"}, {"TERM", "dumb"}, {"JD_COLOR", "1"}, {"JD_FORMAT", "patch"}, {"JD_OPTS", "-set"}, {"LANG", "C"}, {"LC_ALL", "tr_TR.UTF-8"}, {"HOME", "/root"}, {"DEBUG", "1"}, {"CI", "true"}, {"CLICOLOR_FORCE", "1"}, {"GITHUB_OUTPUT", "gh-out"}}
+		for i := 0; i < c.Range(1, 3); i++ {
+			s.Env = append(s.Env, env[c.Int(len(env))])
+		}
+	}
+	if c.Chance(1, 5) {
+		s.Arg0 = []string{"./jd", "/usr/local/bin/jd", "jd.exe", "jd-v2", "/opt/jd/bin/jd"}[c.Int(5)]
 	}
 	s.Files = []File{{an, Blob(docText(c, a, iv.yaml))}, {bn, Blob(docText(c, b, iv.yaml))}}
 	useO := c.Chance(2, 5)
